@@ -14,7 +14,7 @@ THEOREMS = [(M, "NQ.C03." + n) for n in [
     "step_deterministic",
     "exc_covers", "roles_fit", "branch_positions", "classes_unique", "macro_probe_fixed",
     "F3_old_code_counterexample", "F3_fixed_witness", "nonvacuous_loop",
-    "macros_tokenwise_partial", "F4_old_code_counterexample", "F4_fixed_witness",
+    "macro_pass_tokenwise", "macros_tokenwise", "F4_old_code_counterexample", "F4_fixed_witness",
     "macros_adjacent_counterexample",
 ]]
 TRANSLATORS = ["instr_table", "asm_tables"]
@@ -26,8 +26,8 @@ LEVEL_TEXT = (
     "every taken branch lands on the command after its label; halting is preserved), parametric in the "
     "instruction semantics (any `exec` on evaluated operands). Structural theorem: the output is the source "
     "instructions in order, each preceded only by its own `set <scratch> <literal>`s, operands patched. "
-    "Macro substitution: each pass of the (fixed) code replaces exactly the maximal-munch uses `$key`, for every "
-    "body (the statement for whole macro lists is partial, see Props/C03.lean). "
+    "Macro substitution of the (fixed) code equals simultaneous token-wise replacement for every macro list and "
+    "body when no value contains `$` and no use is directly followed by `$` (both necessary, witnesses proved). "
     "Tie: exception table, scratch-register count, branch set and instruction shapes regenerated from the live "
     "modules with kernel-decided side conditions; syntactic differential test of the compiled model against "
     "`assemble_subroutine` (equal instruction lists or same error class) and of the text front end.")
@@ -123,6 +123,13 @@ def run(ctx):
     # ------------------------------------------------ stream B: text front end
     lines_reqs, lines_real = [], []
     word_reqs, word_real = [], []
+    # corpus: the F4 witness (a macro key that is a prefix of another key) — fixed; must stay fixed
+    f4_text = "# NETQASM 0.0\n# APPID 0\n# DEFINE a R0\n# DEFINE a1 R5\nset $a1 3\nset $a 4\n"
+    f4_want = [{"m": "set", "a": [], "o": [{"r": [0, 5]}, {"i": 3}]}, {"m": "set", "a": [], "o": [{"r": [0, 0]}, {"i": 4}]}]
+    res.evaluations += 1
+    if H.real_parse_proto(f4_text) != {"ok": f4_want}:
+        res.failures.append({"what": "a macro use is replaced by a macro whose key is a prefix of its name", "kf": None,
+                             "input": {"text": f4_text, "parsed": H.real_parse_proto(f4_text), "expected": f4_want}})
     for _ in range(n_text):
         p = H.gen_std_program(rng, max_len=10) if rng.random() < 0.7 else H.gen_wild_program(rng, max_len=8)
         p = [c for c in p if not any("t" in o for o in c.get("o", []))]
